@@ -17,7 +17,7 @@ import (
 
 // RespFields is the response grammar. Variant 0 is canonical.
 var RespFields = []Field{
-	{"version", []string{"HTTP/1.1", "HTTP/1.0", "HTTP/1.2", "HTTP/1.10", "HTTP/2.0", "HTTP/0.9", "HTTP/1.;", "HTTP/1", "HTTX/1.1"}},
+	{"version", []string{"HTTP/1.1", "HTTP/1.0", "HTTP/1.2", "HTTP/1.10", "HTTP/2.0", "HTTP/0.9", "HTTP/1.;", "HTTP/1", "HTTX/1.1", "HTTP/4294967297.1", "HTTP/1.4294967297", "HTTP/18446744073709551617.1"}},
 	{"status", []string{"101", "0101", "1e1", "0:1", "9;", "18446744073709551717", "100", "200", "404", "", "1010", "10"}},
 	{"reason", []string{"Switching Protocols", "empty-with-space", "none", "Weird  Reason 101"}},
 	{"upgrade", []string{"canon", "absent", "lower", "upper", "mixed", "padded", "case", "wrong", "dup-same", "triple-same", "dup-conflict"}},
